@@ -446,6 +446,12 @@ def run_job(job):
             d.events = []
             d.held.clear()
             gc.collect()
+            if cfg.get("damage"):
+                links = sorted(os.path.join(dp, f) for root in d.roots for dp, dn, fn in os.walk(root) for f in fn if f.endswith(".link"))
+                if links:
+                    victim = links[cfg["damage"] % len(links)]
+                    with open(victim, "r+b") as fh:
+                        fh.truncate(0 if cfg["damage"] % 2 else 40)
             if cfg.get("reopen_ro"):
                 d.ro_mode = True
                 d.backend = d.open_backend(read_only=True, via_config=cfg.get("ro_via_config"))
